@@ -54,6 +54,12 @@ type method struct {
 	fcFree      [][2]string
 	cbHeld      []string
 	paths       [][]string // Lean Tok terms
+	valueRecv   bool       // declared on T, not *T: every call copies the struct and its lock
+	rlock       bool       // takes the read side of an RWMutex
+	ptrWrites   bool       // assigns through a selector / index / pointer other than a receiver field
+	otherLocks  []string   // identifiers (≠ receiver) whose instance lock this method takes
+	underOther  []string   // own methods called (or "#own-lock") while another instance's lock is held
+	extCalls    []string   // calls `X.F(…)` on identifiers other than the receiver (package functions, locals), in order of first occurrence
 }
 
 type typ struct {
@@ -100,10 +106,36 @@ func lockKindOf(t ast.Expr) string {
 // ---------------------------------------------------------------- per-method walker
 
 type walker struct {
-	t    *typ
-	m    *method
-	recv string
-	held bool
+	t         *typ
+	m         *method
+	recv      string
+	held      bool
+	otherHeld int
+}
+
+// otherLockOp recognises X.lock.Lock() / X.lock.L.Lock() … for an identifier X that is not the receiver
+func (w *walker) otherLockOp(call *ast.CallExpr) (string, string) {
+	sel, ok := call.Fun.(*ast.SelectorExpr)
+	if !ok {
+		return "", ""
+	}
+	base := sel.X
+	if s2, ok := base.(*ast.SelectorExpr); ok && s2.Sel.Name == "L" {
+		base = s2.X
+	}
+	s3, ok := base.(*ast.SelectorExpr)
+	if !ok {
+		return "", ""
+	}
+	id, ok := s3.X.(*ast.Ident)
+	if !ok || id.Name == w.recv || s3.Sel.Name != w.t.lockField {
+		return "", ""
+	}
+	switch sel.Sel.Name {
+	case "Lock", "Unlock", "RLock", "RUnlock":
+		return sel.Sel.Name, id.Name
+	}
+	return "", ""
 }
 
 func addStr(xs *[]string, s string) {
@@ -271,6 +303,9 @@ func (w *walker) call(x *ast.CallExpr) {
 		w.expr(x.Fun)
 		return
 	}
+	if id, ok := sel.X.(*ast.Ident); ok && id.Name != w.recv {
+		addStr(&w.m.extCalls, id.Name+"."+sel.Sel.Name)
+	}
 	// recv.M(...)
 	if id, ok := sel.X.(*ast.Ident); ok && id.Name == w.recv {
 		name := sel.Sel.Name
@@ -279,6 +314,9 @@ func (w *walker) call(x *ast.CallExpr) {
 				addStr(&w.m.callsHeld, name)
 			} else {
 				addStr(&w.m.callsFree, name)
+			}
+			if w.otherHeld > 0 {
+				addStr(&w.m.underOther, name)
 			}
 			return
 		}
@@ -315,6 +353,10 @@ func (w *walker) lhs(e ast.Expr) {
 		}
 		return
 	}
+	switch e.(type) {
+	case *ast.SelectorExpr, *ast.IndexExpr, *ast.StarExpr:
+		w.m.ptrWrites = true // e.link_next = …, tab[i] = …: mutation of the structure through an alias
+	}
 	w.expr(e)
 }
 
@@ -328,8 +370,29 @@ func (w *walker) stmt(s ast.Stmt, top bool, pos int) {
 	switch x := s.(type) {
 	case *ast.ExprStmt:
 		if call, ok := x.X.(*ast.CallExpr); ok {
+			if op, who := w.otherLockOp(call); op != "" {
+				if op == "Lock" || op == "RLock" {
+					addStr(&w.m.otherLocks, who)
+					w.otherHeld++
+				} else if w.otherHeld > 0 {
+					w.otherHeld--
+				}
+				return
+			}
 			switch w.lockOp(call) {
+			case "RLock":
+				w.m.rlock = true
+				w.m.acquires = true
+				w.m.irregular = true // not the Lock(); defer Unlock() pattern the machine models
+				w.held = true
+				if w.otherHeld > 0 {
+					addStr(&w.m.underOther, "#own-lock")
+				}
+				return
 			case "Lock":
+				if w.otherHeld > 0 {
+					addStr(&w.m.underOther, "#own-lock")
+				}
 				if w.held || !top {
 					w.m.irregular = true
 				}
@@ -356,6 +419,9 @@ func (w *walker) stmt(s ast.Stmt, top bool, pos int) {
 		}
 		w.expr(x.X)
 	case *ast.DeferStmt:
+		if op, _ := w.otherLockOp(x.Call); op != "" {
+			return // deferred release of the other instance's lock: held until the method returns
+		}
 		if op := w.lockOp(x.Call); op != "" {
 			if op == "Unlock" && top && w.held {
 				w.m.deferUnlock = true
@@ -737,6 +803,9 @@ func collect(dir string, only map[string]bool, types map[string]*typ, order *[]s
 func analyse(t *typ) {
 	for _, fd := range t.decls {
 		m := &method{name: fd.Name.Name, exported: ast.IsExported(fd.Name.Name)}
+		if _, isPtr := fd.Recv.List[0].Type.(*ast.StarExpr); !isPtr {
+			m.valueRecv = true
+		}
 		recv := "_"
 		if len(fd.Recv.List[0].Names) > 0 {
 			recv = fd.Recv.List[0].Names[0].Name
@@ -830,6 +899,8 @@ func main() {
 			fmt.Fprintf(&b, "    callsHeld := %s, callsFree := %s,\n", leanStrs(m.callsHeld), leanStrs(m.callsFree))
 			fmt.Fprintf(&b, "    accHeld := %s,\n    accFree := %s,\n", leanAcc(m.accHeld), leanAcc(m.accFree))
 			fmt.Fprintf(&b, "    fieldCallsHeld := %s, fieldCallsFree := %s, callbacksHeld := %s,\n", leanPairs(m.fcHeld), leanPairs(m.fcFree), leanStrs(m.cbHeld))
+			fmt.Fprintf(&b, "    valueRecv := %v, rlock := %v, ptrWrites := %v, otherLocks := %s, underOther := %s,\n", m.valueRecv, m.rlock, m.ptrWrites, leanStrs(m.otherLocks), leanStrs(m.underOther))
+			fmt.Fprintf(&b, "    extCalls := %s,\n", leanStrs(m.extCalls))
 			fmt.Fprintf(&b, "    paths := %s }\n", leanPaths(m.paths))
 		}
 		var ms []string
@@ -856,6 +927,9 @@ func main() {
 			CallsHeld []string `json:"callsHeld"`
 			CallsFree []string `json:"callsFree"`
 			AccFree   []string `json:"accFree"`
+			RLock     bool     `json:"rlock"`
+			Mutates   bool     `json:"mutates"`
+			ValueRecv bool     `json:"valueRecv"`
 		}
 		js := map[string][]jm{}
 		for _, n := range order {
@@ -864,7 +938,11 @@ func main() {
 				for _, a := range m.accFree {
 					af = append(af, a.path)
 				}
-				js[n] = append(js[n], jm{m.name, m.exported, m.acquires, m.lockFirst && m.deferUnlock, m.irregular, m.callsHeld, m.callsFree, af})
+				mut := m.ptrWrites
+				for _, a := range append(append([]access{}, m.accHeld...), m.accFree...) {
+					mut = mut || a.write
+				}
+				js[n] = append(js[n], jm{m.name, m.exported, m.acquires, m.lockFirst && m.deferUnlock, m.irregular, m.callsHeld, m.callsFree, af, m.rlock, mut, m.valueRecv})
 			}
 		}
 		jb, _ := json.MarshalIndent(js, "", " ")
